@@ -59,7 +59,7 @@ def _mk(kind, H):
         v = SH.place(SH.CONVEX["skew"], "r2", 1, OFF)
         return S.ConvexPolyhedron(H.arr([[H.num(c) for c in p] for p in v]))
     if kind == "ConvexSpheropolyhedron":
-        v = SH.place(SH.CONVEX["box"], "id", 1, OFF)
+        v = SH.place(SH.CONVEX["pyramid"], "id", 1, OFF)  # vertex mean != centroid
         return S.ConvexSpheropolyhedron(H.arr([[H.num(c) for c in p] for p in v]), H.num(F(1, 2)))
     raise KeyError(kind)
 
